@@ -1,7 +1,7 @@
 (* C15 — parts of the full statement that are false of the (faithful) model. *)
 From Coq Require Import String List Bool ZArith Permutation.
 Import ListNotations.
-Require Import V.Lib.PyStr V.Lib.JTree V.Det.Model V.Det.Proofs V.Det.Refs.
+Require Import V.Lib.PyStr V.Lib.JTree V.Det.Model V.Det.Proofs V.Det.Refs V.Det.Aggregate.
 Open Scope string_scope.
 Open Scope list_scope.
 
@@ -71,3 +71,29 @@ Proof.
   split; [vm_compute; discriminate|]. split; vm_compute; reflexivity.
 Qed.
 Print Assumptions C15_replace_set_order_refuted.
+
+(* S7: why the collection of replicated references that apply_replicate hands to compile_component_aggregate has
+   to be the LIST in document order (it is, in the code that exists: no finding; a set here is a regression the
+   correspondence run looks for).  Two replicating producers gen and mygen in the stage of the aggregating
+   component, which uses the relative spellings and lists the longer name first: in document order mygen:ref is
+   rewritten before gen:ref can match inside it; in the other order of the two element collection the text gen:ref
+   inside mygen:ref is expanded and the component references the unknown producer mystage0.gen0.  The spellings
+   are not separated, so the hypothesis of C15_aggregate_separated cannot be dropped. *)
+Definition s7_refs : list AM.dref :=
+  [rref "stage0.mygen:ref" "mygen:ref" ["stage0.mygen0:ref"; "stage0.mygen1:ref"];
+   rref "stage0.gen:ref" "gen:ref" ["stage0.gen0:ref"; "stage0.gen1:ref"]].
+Definition s7_ps : list AM.piece := [AM.Tok "mygen:ref"; AM.Lit " "; AM.Tok "gen:ref"].
+
+Theorem C15_aggregate_set_order_refuted :
+  exists refs ps piS,
+    perm_oracle piS /\
+    aggregate_list refs (AM.flatten ps) = "stage0.mygen0:ref stage0.mygen1:ref stage0.gen0:ref stage0.gen1:ref" /\
+    aggregate_set piS refs (AM.flatten ps) = "mystage0.gen0:ref stage0.gen1:ref stage0.gen0:ref stage0.gen1:ref" /\
+    aggregate_list refs (AM.flatten ps) <> aggregate_set piS refs (AM.flatten ps) /\
+    AM.separatedb refs ps = false.
+Proof.
+  exists s7_refs, s7_ps, (@rev AM.dref). split; [exact rev_perm_oracle|].
+  split; [vm_compute; reflexivity|]. split; [vm_compute; reflexivity|].
+  split; [vm_compute; discriminate|vm_compute; reflexivity].
+Qed.
+Print Assumptions C15_aggregate_set_order_refuted.
